@@ -303,7 +303,7 @@ class Blocks(Relation):
     coq_case_type = "bcase"
     coq_model = "model_blocks"
     coq_imports = ["BpText", "C18_Model"]
-    budget = {"quick": 900, "thorough": 8000}
+    budget = {"quick": 700, "thorough": 8000}
     max_cases_per_shard = 50
     anchors = [("haptools/karyogram.py", "GetHaplotypeBlocks"), ("haptools/karyogram.py", "GetChrom")]
 
